@@ -32,6 +32,7 @@ def run(chk):
     if q:
         chk.require_actions(r0, ["SkipByte", "Reject", "Stop", "Deliver", "Exhaust"])
     chk.add_mc(mc("MC_Frame", "MC_Frame.cfg", workers=8))
+    chk.add_mc(mc("MC_Scanner", "MC_Scanner_A4.cfg", workers=8))
     chk.add_neg(mc("MC_Scanner", "NEG_C05_return.cfg", expect_fail=True))
     chk.add_neg(mc("MC_Scanner", "NEG_C05_skip.cfg", expect_fail=True))
     t = record("scan", chk.path("scan.ndjson"), n=1500 if q else 25000, seed=chk.seed)
